@@ -154,6 +154,38 @@ Put(a, idxs, mode, tol, rhs) ==
                     IF writer(cs[k]) = {} THEN a.cells[k]
                     ELSE BcastCell(rhs, selshape, sel[CHOOSE w \in writer(cs[k]) : \A w2 \in writer(cs[k]) : w2 <= w])]])
 
+(* ---------- C01 / C03: pointwise ("broadcast=True", NumPy-style) selection ---------- *)
+\* list and mask indices of one common length n pair up element by element, scalars are repeated for every point,
+\* full slices and label slices keep sampling their dimension independently
+IsPt(r, idxs, i) == ~r[i].drop /\ idxs[i].k \in {"li", "mk"}
+PtDims(r, idxs) == {i \in 1..Len(r) : IsPt(r, idxs, i)}
+PointCount(r, idxs) == IF PtDims(r, idxs) = {} THEN 0 ELSE Len(r[CHOOSE i \in PtDims(r, idxs) : TRUE].pos)
+PointsOK(r, idxs) == \A i, j \in PtDims(r, idxs) : Len(r[i].pos) = Len(r[j].pos)
+\* does point p address source coordinate c ?
+Hits(r, idxs, c, p) ==
+  \A i \in 1..Len(r) : IF IsPt(r, idxs, i) THEN r[i].pos[p] = c[i] ELSE \E j \in 1..Len(r[i].pos) : r[i].pos[j] = c[i]
+\* source coordinate of point p (only when every dimension is a list, mask or scalar)
+PointCoord(r, idxs, p) == [i \in 1..Len(r) |-> IF IsPt(r, idxs, i) THEN r[i].pos[p] ELSE r[i].pos[1]]
+\* rhs: scalar, or 1-d with one value per point (last writer wins)
+PutPoints(a, idxs, mode, tol, rhs) ==
+  LET r == ResolveIndex(a, idxs, mode, tol)
+  IN IF \E i \in 1..Len(r) : ~r[i].ok THEN Err("IndexError")
+     ELSE IF ~PointsOK(r, idxs) THEN Err("ShapeMismatch")
+     ELSE IF PtDims(r, idxs) = {} THEN Put(a, idxs, mode, tol, rhs)
+     ELSE LET n == PointCount(r, idxs)
+              cs == Coords(Shape(a))
+              W(c) == {p \in 1..n : Hits(r, idxs, c, p)}
+          IN Ok([a EXCEPT !.cells = [k \in 1..Len(cs) |->
+                    IF W(cs[k]) = {} THEN a.cells[k]
+                    ELSE IF rhs.shape = <<>> THEN rhs.cells[1]
+                    ELSE rhs.cells[CHOOSE w \in W(cs[k]) : \A w2 \in W(cs[k]) : w2 <= w]]])
+\* the values read by the same pointwise index, one per point (no slice dimension)
+TakePoints(a, idxs, mode, tol) ==
+  LET r == ResolveIndex(a, idxs, mode, tol)
+  IN IF \E i \in 1..Len(r) : ~r[i].ok THEN Err("IndexError")
+     ELSE IF ~PointsOK(r, idxs) THEN Err("ShapeMismatch")
+     ELSE Ok([p \in 1..(IF PtDims(r, idxs) = {} THEN 1 ELSE PointCount(r, idxs)) |-> At(a, PointCoord(r, idxs, p))])
+
 (* ---------- C10: rearranging dimensions ---------- *)
 \* perm[j] = position in a of the j-th dimension of the result
 Transpose(a, perm) ==
